@@ -262,3 +262,29 @@ func VF_C08_restart_after_snapshot() {
 
 var _ = resp.MakeIntData
 var _ raftpb.ConfChangeI
+
+// ---------------------------------------------------------------------------
+// VF_C07_batching: how Raft groups committed entries into batches differs from node to node; the keyspace
+// must not depend on it. Two proposals from connections on different databases are applied as one commit
+// on one replica and as two commits on another.
+func VF_C07_batching() {
+	one, two := c14Start(), c14Start()
+	v1, v0 := vfBytes("v1", 1, 1), vfBytes("v0", 1, 1)
+	vfAssume(vfAnd(v1[0] < 0x80, v0[0] < 0x80))
+	dbA, dbB := vfChoice("dbA", 2), vfChoice("dbB", 2)
+	pA := &raftexample.RaftProposal{ID: "a", Args: [][]byte{bs("set"), bs("k"), v1}, DB: dbA}
+	pB := &raftexample.RaftProposal{ID: "b", Args: [][]byte{bs("append"), bs("k"), v0}, DB: dbB}
+	d1 := make(chan struct{}, 1)
+	one.commitC <- &raftexample.RaftCommit{Data: []*raftexample.RaftProposal{pA, pB}, ApplyDoneC: d1}
+	<-d1
+	for _, p := range []*raftexample.RaftProposal{pA, pB} {
+		d := make(chan struct{}, 1)
+		two.commitC <- &raftexample.RaftCommit{Data: []*raftexample.RaftProposal{p}, ApplyDoneC: d}
+		<-d
+	}
+	for db := 0; db < 2; db++ {
+		x := one.mgr.DBs[db].ExecCommand(context.Background(), [][]byte{bs("get"), bs("k")}, nil)
+		y := two.mgr.DBs[db].ExecCommand(context.Background(), [][]byte{bs("get"), bs("k")}, nil)
+		vfAssert(c07Same(x, y), "keyspace-depends-on-commit-batching")
+	}
+}
